@@ -37,7 +37,7 @@ STD_CONSTS = {
 PURE_FUNCS = {
     'len': len, 'min': min, 'max': max, 'ord': ord, 'chr': chr, 'str': str, 'int': int, 'abs': abs, 'sum': sum, 'any': any, 'all': all,
     'range': range, 'enumerate': enumerate, 'zip': zip, 'sorted': sorted, 'list': list, 'tuple': tuple, 'dict': dict, 'set': set,
-    'reversed': reversed, 'slice': slice, 'bool': bool, 'float': float, 'frozenset': frozenset,
+    'reversed': reversed, 'slice': slice, 'bool': bool, 'float': float, 'frozenset': frozenset, 'iter': iter,
     'itertools.product': itertools.product, 'product': itertools.product, 'str.maketrans': str.maketrans,
     'itertools.combinations': itertools.combinations, 'combinations': itertools.combinations, 'itertools.permutations': itertools.permutations,
     'itertools.chain': itertools.chain, 'chain': itertools.chain, 'itertools.combinations_with_replacement': itertools.combinations_with_replacement,
